@@ -81,6 +81,14 @@ class SelectResults(object):
         else:
             desc = False
         if isinstance(orderBy, string_type):
+            if orderBy == 'id':
+                # qualify the id column: a bare `id` is ambiguous (or means
+                # another table's id) when the query spans several tables
+                val = self.sourceClass.q.id
+                if desc:
+                    return sqlbuilder.DESC(val)
+                else:
+                    return val
             if orderBy in self.sourceClass.sqlmeta.columns:
                 val = getattr(self.sourceClass.q,
                               self.sourceClass.sqlmeta.columns[orderBy].name)
